@@ -1,11 +1,11 @@
 SPECIFICATION Spec
 CONSTANTS
   Procs = {1,2,3}
-  NIds = 2
-  Cost <- Cost12
+  NIds = 1
+  Cost <- Cost1
   Size = 2
-  MaxCalls = 4
-  MaxPerProc = 2
+  MaxCalls = 3
+  MaxPerProc = 1
   Twin = "no_contains"
   Record = FALSE
 INVARIANTS
